@@ -188,14 +188,14 @@ theorem stR_of_heapExtends (st st' : St) (hI : Inv st) (htop : AtTop st) (htop' 
     have hlt' : i < st'.frames.size := by omega
     have hft : st.frames[i] = ft := by
       rw [Array.getElem?_eq_getElem hlt] at hi; exact Option.some.inj hi
-    obtain ⟨h1, h2, h3, h4, h5⟩ := hfr i hlt hlt'
-    rw [hft] at h1 h2 h3 h4 h5
+    obtain ⟨h1, h2, h3, h4, h5, h6⟩ := hfr i hlt hlt'
+    rw [hft] at h1 h2 h3 h4 h5 h6
     have hok := hI.frames i ft hi
     refine ⟨st'.frames[i], ?_, ?_⟩
     · show (startInput st').frames[sh _ i]? = _
       rw [sh_of_lt _ (show i < (shiftOf st st').n0 from hlt)]
       exact Array.getElem?_eq_getElem hlt'
-    · refine ⟨?_, ?_, h3, h4, ?_, fun h => absurd h (by show ¬ st.frames.size ≤ i; omega)⟩
+    · refine ⟨?_, ?_, h3, h4, ?_, fun h => absurd h (by show ¬ st.frames.size ≤ i; omega), h6⟩
       · rw [h1, renStore_of_ok]
         intro k v hm
         exact (hok.store k v hm).1
